@@ -363,3 +363,77 @@ def divergent_vote(h, mk=None, over=None):
         s.do(("EServerLoop", 1, 0), expect=None); s.do(("EHandleMsg", 1, 0, True), expect=None)
     s.check(s.w.g["log"][3] == s.w.g["log"][2])
     return s.case("divergent_vote", "a candidate whose log is longer but ends in an older term is refused by a voter holding a committed entry of a newer term")
+
+
+def stale_matchindex(h, mk=None, over=None):
+    """the same server is leader twice (5 servers): S1 (term 2) replicates an entry to S2 (matchIndex[1][2] = 1); S4 is elected in term 3
+    with an empty log and its AppendEntries truncate S1 and S2; S1 is re-elected in term 4 (AServerBecomeLeader resets matchIndex to 0)
+    and replicates a new entry at index 1 to S5 only: {S1,S5} is not a quorum, the entry must NOT be committed / acknowledged. With a
+    stale matchIndex[1][2] it is, and after the minority {S1,S5} crashes the next leader lacks it."""
+    p = {"n": 5, "nc": 2, "buf": 10, "fifo": True, "explorefail": True, "crashers": [1, 5], "keys": 1, "vals": 2}
+    s = (mk or Script)(h, dict(p, **(over or {})))
+    c1 = 31
+    s.elect(1, [2, 3])
+    s.client_request(c1, ("put", 1, 1), 1)
+    s.deliver(1, lambda m: m["mtype"] == "cpq")
+    s.append_entries(1, [2])
+    s.drain(2, lambda m: m["mtype"] == "apq")
+    s.drain(1, lambda m: m["mtype"] == "app")
+    s.check(s.w.g["matchIndex"][1][2] == 1, s.w.g["matchIndex"])
+    s.timeout(4, drop=[1, 2, 3, 5])                                     # S4: term 2, nobody hears
+    s.timeout(4)                                                        # S4: term 3, asks everybody
+    for j in (3, 5, 1, 2):
+        s.deliver(j, lambda m: m["mtype"] == "rvq" and m["msource"] == 4 and m["mterm"] == 3)
+    s.drain(4, lambda m: m["mtype"] == "rvp")
+    s.do(("EBecomeLeader", 4, 0))
+    s.check(s.w.g["state"][4] == "leader" and s.w.g["state"][1] == "follower" and len(s.w.g["log"][1]) == 1, s.w.g["state"])
+    s.append_entries(4, [1, 2])                                         # prev = 0, entries = <<>>: S1 and S2 drop the entry of term 2
+    s.drain(1, lambda m: m["mtype"] == "apq" and m["msource"] == 4)
+    s.drain(2, lambda m: m["mtype"] == "apq" and m["msource"] == 4)
+    s.drain(4, lambda m: m["mtype"] == "app")
+    s.check(all(len(s.w.g["log"][i]) == 0 for i in range(1, 6)), s.w.g["log"])
+    s.timeout(1, drop=[4, 5])                                           # S1 re-elected in term 4 by S2 and S3
+    s.deliver(2, lambda m: m["mtype"] == "rvq" and m["msource"] == 1 and m["mterm"] == 4)
+    s.deliver(3, lambda m: m["mtype"] == "rvq" and m["msource"] == 1 and m["mterm"] == 4)
+    s.drain(1, lambda m: m["mtype"] == "rvp")
+    s.do(("EBecomeLeader", 1, 0))
+    s.check(s.w.g["state"][1] == "leader" and s.w.g["currentTerm"][1] == 4 and s.w.g["matchIndex"][1][2] == 0, s.w.g["matchIndex"])
+    s.do(("EClientTimeout", c1, False, 0, True)); s.do(("EClientSnd", c1, 1, 0, True))   # the client re-sends its Put
+    s.deliver(1, lambda m: m["mtype"] == "cpq")
+    s.append_entries(1, [5])
+    s.drain(5, lambda m: m["mtype"] == "apq" and m["msource"] == 1)
+    s.drain(1, lambda m: m["mtype"] == "app")
+    s.do(("EAdvance", 1)); s.do(("EApply", 1), expect=None); s.do(("EApply", 1), expect=None)
+    s.check(s.w.g["commitIndex"][1] == 0, s.w.g["commitIndex"])
+    s.do(("EClientRcv", c1, 0), expect=None)                            # nothing to receive: the Put is on 2 of 5 servers
+    s.do(("ECrash", 1)); s.do(("EFdUpdate", 1)); s.do(("ECrash", 5)); s.do(("EFdUpdate", 5))
+    s.timeout(2, drop=[1, 5])
+    s.deliver(3, lambda m: m["mtype"] == "rvq" and m["msource"] == 2 and m["mterm"] == 5)
+    s.deliver(4, lambda m: m["mtype"] == "rvq" and m["msource"] == 2 and m["mterm"] == 5)
+    s.drain(2, lambda m: m["mtype"] == "rvp")
+    s.do(("EBecomeLeader", 2, 0))
+    s.check(s.w.g["state"][2] == "leader")
+    return s.case("stale_matchindex", "a re-elected leader starts from matchIndex = 0: an entry on 2 of 5 servers is not committed")
+
+
+def overwrite_same_key(h, mk=None, over=None):
+    """the same key is written twice with different values; the leader applies entry by entry (applyLoop), the followers through
+    ApplyLog / ApplyLogEntry when they learn the commit index: equal commit index => equal stores (the later Put wins everywhere)"""
+    p = {"n": 3, "nc": 2, "buf": 10, "fifo": True, "explorefail": True, "crashers": [1], "keys": 1, "vals": 2}
+    s = (mk or Script)(h, dict(p, **(over or {})))
+    s.elect(1, [2, 3])
+    for val in (1, 2):
+        s.client_request(19, ("put", 1, val), 1)
+        s.deliver(1, lambda m: m["mtype"] == "cpq")
+        s.append_entries(1, [2, 3])
+        s.drain(2, lambda m: m["mtype"] == "apq")
+        s.drain(3, lambda m: m["mtype"] == "apq")
+        s.drain(1, lambda m: m["mtype"] == "app")
+        s.do(("EAdvance", 1)); s.do(("EApply", 1)); s.do(("EApply", 1))
+        s.do(("EClientRcv", 19, 0))
+    s.append_entries(1, [2, 3])                                         # followers learn commit index 2 and apply both entries
+    s.drain(2, lambda m: m["mtype"] == "apq")
+    s.drain(3, lambda m: m["mtype"] == "apq")
+    s.drain(1, lambda m: m["mtype"] == "app")
+    s.check(s.w.g["commitIndex"][2] == 2 and s.w.g["sm"][2] == s.w.g["sm"][1], s.w.g["sm"])
+    return s.case("overwrite_same_key", "put(k,v1) then put(k,v2): leader (applyLoop) and followers (ApplyLog) end with the same store")
